@@ -517,5 +517,5 @@ Proof.
     + intros _ s Hs. injection Hs as <-. repeat constructor.
     + intros ts Hts. discriminate.
   - split; [vm_compute; reflexivity|]. split; [reflexivity|]. split; [reflexivity|]. split; [reflexivity|].
-    split; [reflexivity|]. split; [discriminate|]. intros s Hs. injection Hs as <-. reflexivity.
+    split; [reflexivity|]. split; [discriminate|]. intros _ s Hs. injection Hs as <-. reflexivity.
 Qed.
